@@ -38,6 +38,15 @@ func C01(e *Env) {
 	collisionRule(e, "R01.6")
 	dupGetterRule(e, "R01.7")
 	identifierPositions(e, "R01.5")
+	// shared with C14: a reference that is compiled to the wrong package path or loses its pointer marker does not compile
+	c14Decorate(e)
+	c14Groups(e)
+	c14Guards(e)
+	c14Sanitise(e, "R14.3")
+	r.Rule("R14.1", "alias substitution replaces the whole first segment once (shared with C14): otherwise the import path of the generated file names a package that does not exist", 4)
+	r.Rule("R14.8", "every capture group of a type/constructor/value reference reaches the compiled expression on every path (shared with C14)", 5)
+	r.Rule("R14.9", "the current package never reaches the alias table (shared with C14)", 5)
+	r.Rule("R14.3", "import references are sanitised before aliasing (shared with C14)", 8)
 	r.NotCovered = append(r.NotCovered,
 		"existence and types of user symbols (assumed by the property)",
 		"idempotence of gofmt / x/tools/imports (trusted)",
